@@ -249,6 +249,10 @@ Ltac group_apply T :=
 Theorem group_C01 stream cap0 ops i : let w := group_run stream cap0 ops in
   g_retpend _ w = true -> i < N _ g_slots w -> Sig _ g_awaited w i -> g_out _ w = true.
 Proof. group_apply C01_generic. Qed.
+Theorem group_C01_quiescent stream cap0 ops i : let w := group_run stream cap0 ops in
+  g_retpend _ w = true -> g_quiet _ w = true -> g_out _ w = false -> i < N _ g_slots w -> aw _ g_awaited w i = true ->
+  polled _ w i = true /\ fired _ w i = false.
+Proof. group_apply C01_quiescent. Qed.
 Theorem group_C16 stream cap0 ops : g_bad16 _ (group_run stream cap0 ops) = false.
 Proof. group_apply C16_generic. Qed.
 Theorem group_C20 stream cap0 ops i : let w := group_run stream cap0 ops in
